@@ -228,7 +228,7 @@ def write_cfg(path, consts, invariants=(), properties=(), spec=None, constraint=
 
 MPRUN_INVS = ["ExactlyOnce", "RunCompletes", "TermCorrect", "CyclicRejected", "AcyclicAccepted",
               "NoSpuriousRecursive", "StackBounded", "FailureReported", "NoRunningWhenIdle"]
-MPRUN_PROPS = ["NoReexec", "Quiescent", "FinishedStays"]
+MPRUN_PROPS = ["NoReexec", "Quiescent", "FinishedStays", "RefinesAbs"]
 
 
 def mprun_consts(N, calls, fail=0, dags=False, cyclic=False, memo=True, guard=True, reset=True, sweep=True, leaf="mixed", special=None, memokey="flag"):
